@@ -266,3 +266,80 @@ pub fn text_scale(r: &mut Run, name: &str, what: &'static str) -> Result<(), Mac
         }
     })
 }
+
+/// C03 on long paragraphs *through the public pipeline* (`wrap` with `WrapAlgorithm::OptimalFit`,
+/// i.e. through `WrapAlgorithm::wrap`'s usize -> f64 dispatch, which the fragment-level probes
+/// bypass): every period of <= 3 word lengths from {1,2,3,5,9} repeated to n words, n around the
+/// powers of two from 2^7, at three widths.  Oracle: cost of the returned arrangement == the
+/// minimum over all arrangements (prefix-sum DP, self-checked against the plain DP for n <= 300).
+#[cfg(feature = "full")]
+pub fn text_scale_c03(r: &mut Run, name: &str) -> Result<(), MachineryError> {
+    let t = r.tier;
+    let wl = [1usize, 2, 3, 5, 9];
+    let mut pats: Vec<Vec<usize>> = vec![];
+    for &a in &wl {
+        pats.push(vec![a]);
+        for &b in &wl {
+            if a != b {
+                pats.push(vec![a, b]);
+            }
+            for &c in &wl {
+                if !(a == b && b == c) {
+                    pats.push(vec![a, b, c]);
+                }
+            }
+        }
+    }
+    let lens: Vec<usize> = if t == Tier::Quick { vec![127, 129, 200, 257, 300] } else { vec![64, 127, 128, 129, 130, 200, 255, 256, 257, 300, 513, 1025, 2049] };
+    let widths = [20usize, 37, 60];
+    let indents: [(&'static str, &'static str); 2] = [("", ""), ("> ", "\u{2502}   ")];
+    let lens2 = lens.clone();
+    let n_cases = (pats.len() * lens.len()) as u64;
+    r.range(name, &format!("one paragraph of n words, n in {:?}, word lengths cycling through every period of <= 3 lengths from {:?} ({} periods), single spaces; wrap with OptimalFit(default penalties) x separators x widths {:?} x indent pairs {:?}, no splitter, break_words off", lens, wl, pats.len(), widths, indents), n_cases, move |i, cx| {
+        let pat = &pats[(i as usize) / lens2.len()];
+        let n = lens2[(i as usize) % lens2.len()];
+        let words: Vec<String> = (0..n).map(|k| "x".repeat(pat[k % pat.len()])).collect();
+        let text = words.join(" ");
+        let fr: Vec<Frag> = words.iter().map(|w| Frag { w: w.len() as f64, ws: 1.0, p: 0.0 }).collect();
+        cx.seq = idx_seq(i);
+        cx.set_input(&format!("{} words with lengths cycling {:?}", n, pat));
+        let pen = pen_of(DEFAULT_PEN);
+        for sep in seps() {
+            for &(ii, si) in &indents {
+                for &w in &widths {
+                    cx.eval();
+                    cx.nontrivial();
+                    let cfg = Cfg { width: w, sep, alg: Alg::Opt(DEFAULT_PEN), spl: Spl::None, bw: false, ii, si, crlf: false };
+                    let o = cfg.opts();
+                    let d = || cfg.d();
+                    let lines = match cx.guard(|| wrap(&text, &o)) {
+                        Some(l) => l,
+                        None => continue,
+                    };
+                    let mut lens_got = vec![];
+                    let mut shape_ok = true;
+                    for (j, l) in lines.iter().enumerate() {
+                        match l.strip_prefix(if j == 0 { ii } else { si }) {
+                            Some(c) if !c.is_empty() => lens_got.push(c.split(' ').count()),
+                            _ => shape_ok = false,
+                        }
+                    }
+                    if !shape_ok || lens_got.iter().sum::<usize>() != n {
+                        cx.note("C03-long-paragraph-lines-not-mappable(C01's business)");
+                        continue;
+                    }
+                    let lw = [w.saturating_sub(ref_width(ii)) as f64, w.saturating_sub(ref_width(si)) as f64];
+                    let got = ref_arrangement_cost(&fr, &lens_got, &lw, &pen);
+                    let best = ref_optimum_dp_fast(&fr, &lw, &pen);
+                    if n <= 300 && w == 20 {
+                        assert!(best == ref_optimum_dp(&fr, &lw, &pen), "reference self-check failed: fast DP differs from plain DP");
+                    }
+                    cx.check("C03-text-minimum-cost(long)", got == best, &d, &|| json!({"lines": lens_got.len(), "cost": got, "minimum": best}));
+                }
+            }
+        }
+        if cx.want_sample() {
+            cx.sample(&|| json!({"words": n, "pattern": pat}));
+        }
+    })
+}
